@@ -30,7 +30,7 @@ case "$pkgname" in
   gfd|gfd_test) dir=internal/gfd ;;
   *) dir=. ;;
 esac
-tags=$(grep -m1 -o -- '-tags[ =][a-z_,]*' "$SRC/demo_test.go" | sed 's/-tags[ =]//')
+tags=$(grep 'go test' "$SRC/demo_test.go" | grep -o -- '-tags[ =][a-z_,]*' | head -1 | sed 's/-tags[ =]//')
 tagarg=""; [ -n "$tags" ] && tagarg="-tags $tags"
 runre=$(grep -o 'func Test[A-Za-z0-9_]*' "$SRC/demo_test.go" | sed 's/func //' | paste -sd'|')
 NETNS='ip link set lo up; ip link add eth0 type veth peer name vpeer; ip addr add 10.77.0.1/24 dev eth0; ip link set eth0 up; ip link set vpeer up; ip route add default dev eth0; sleep 3;'
